@@ -26,10 +26,15 @@ def field_of(code, mode, rank, name, lawful=False):
     partial = mode == 'pord'
     if code == 'n' and not partial:
         code = 'p'
+    both = code == 'x'      # `ignore` and `method` on one field: ignored
+    if both:
+        code = 'i'
     ty = {'p': 'u8', 'n': 'Nan', 'i': 'u8', 'm': 'u8'}[code]
     p = {}
     if code == 'i':
         p['ignore'] = True
+    if both:
+        p['method'] = 'rev_pcmp' if partial else 'rev_cmp'
     if code == 'm':
         if lawful:
             p['method'] = 'half_pcmp' if partial else 'half_cmp'
@@ -281,6 +286,12 @@ def gen(tier, seed):
             if m is not None:
                 mods.append(m)
                 n += 1
+    for k, (fl, mode) in enumerate([(['p', 'x', 'p'], 'pord'), (['x', 'p'], 'both_ord'), (['m', 'x', 'p'], 'ordonly'), (['p', 'x'], 'both_pord'), (['x', 'n', 'p'], 'pord')]):
+        shape, ranks = place(fl, [None] * len(fl), k + 1)
+        m = emit(f'm{n:04d}', f'{S.shape_id(shape)}/ranks=default/{mode}/ignore+method on one field', shape, ranks, mode)
+        if m is not None:
+            mods.append(m)
+            n += 1
     from . import model
     model.TYPE_WRAP = model.generic_header_wrap
     try:
